@@ -47,7 +47,19 @@ def arg_pattern(rng, depth=1, meta=0.4, notation=0.3, syms=SYMS):
     # mu must be positive for the machine; the toolkit does not check -> keep generated arguments well-formed
     if not _wf(e):
         return rp.fold(tb.sy(rng.choice(syms)), rng, 0.0), tb.sy('a') if False else None
-    return rp.fold(e, rng, rng.choice((0.0, 0.5, 0.9))), e
+    p = rp.fold(e, rng, rng.choice((0.0, 0.5, 0.9)))
+    if rng.random() < 0.05 and tb.size(e) <= 12:
+        # a notation application that leaves one parameter open (a partial node: the open parameter is a metavariable of the pattern)
+        from frozendict import frozendict
+        P = repo.P()
+        cands = [nt for nt, _fam in repo.notations().values() if nt.arity == 2 and nt.definition.metavars() == {0, 1}
+                 and not any(m[2] or m[3] or m[4] or m[5] for ms in tb.metavars(tb.of_repo(nt.definition)).values() for m in ms)]
+        nt = rng.choice(cands)
+        node = P.Instantiate(nt.definition, frozendict({rng.choice((0, 1)): p}))
+        e2 = tb.of_repo(node)
+        if _wf(e2):
+            return node, e2
+    return p, e
 
 
 def _with_holes(e, rng, table=None):
